@@ -787,3 +787,24 @@ def run(index, rep, tier):
                 rep.check(ok, "R09.25", fi.qualname, "label list ended by a bare comparison with `;`", fn_where(fi, lp), "%s: the loop test consults is_token_quoted" % fi.name,
                           "%s reads taxon labels in a loop that stops at `%s == ';'` without asking whether the token was quoted: a taxon whose label is exactly `;` is written `';'` and read back as the end of the statement - the TAXLABELS list (or the matrix) stops there, later rows are lost or attached to the wrong statement, and nothing is reported" % (fi.qualname, tv))
         rep.floor("R09.25", "label-reading loops of the NEXUS reader", 4, n25)
+
+    # ---- R09.26 the NTAX yardstick belongs to the block that declared it
+    with rep.section("R09.26"):
+        rep.rule("R09.26", "the NTAX yardstick belongs to the block that declared it: the reader keeps ONE `_file_specified_ntax`, overwritten by every DIMENSIONS statement, and the CHARACTERS blocks this library writes carry NCHAR only - so in a document with several TAXA blocks the value a matrix sees is the LAST TAXA block's, not the linked one's. A matrix's row count is therefore refused against it (a raising comparison in the matrix statement or the two data routines) only if the characters-block routine gives the field a value of its own before its DIMENSIONS statement is read")
+        nrq = "dendropy.dataio.nexusreader.NexusReader."
+        fns26 = [index.function(nrq + x) for x in ("_parse_matrix_statement", "_process_discrete_matrix_data", "_process_continuous_matrix_data")]
+        cdb = index.function(nrq + "_parse_characters_data_block")
+        gcdb = cfg_of(cdb)
+        dim_nodes = [n for n in gcdb.nodes if any(call_name(c) == "_parse_dimensions_statement" for c in node_calls(n))]
+        if not dim_nodes:
+            raise AnalysisError("R09.26: _parse_characters_data_block no longer calls _parse_dimensions_statement")
+        scoped = all(gcdb.dominated_by(dn, lambda n: n.kind == "stmt" and isinstance(n.ast, ast.Assign) and any(norm(t) == "self._file_specified_ntax" for t in n.ast.targets)) for dn in dim_nodes)
+        n26 = 0
+        for f_ in fns26:
+            g_ = cfg_of(f_)
+            for n_ in g_.nodes:
+                if n_.kind == "test" and isinstance(n_.ast, ast.Compare) and "self._file_specified_ntax" in norm(n_.ast) and "len(" in norm(n_.ast) and (raises_in_branch(g_, n_, "t") is not None or raises_in_branch(g_, n_, "f") is not None):
+                    n26 += 1
+                    rep.check(scoped, "R09.26", f_.qualname, "row count refused against a stale NTAX", fn_where(f_, n_.stmt), "%s: `%s` - the field is set afresh per characters block" % (f_.name, norm(n_.ast)[:60]),
+                              "%s refuses a matrix on `%s`, but _parse_characters_data_block never gives `_file_specified_ntax` a value of its own: a CHARACTERS block as this library writes it declares NCHAR only, so the NTAX compared is the one of the most recent TAXA block - a data set with namespaces of 4 and 2 taxa, each with a matrix, is written and then refused on reading back ('2 taxa declared, 4 rows found')" % (f_.qualname, norm(n_.ast)[:70]))
+        rep.ob("R09.26", cdb.qualname, "%d raising row-count comparisons against _file_specified_ntax; field %s per characters block" % (n26, "reset" if scoped else "NOT reset"), fn_where(cdb))
